@@ -30,6 +30,9 @@ CONSTANTS MaxH,          \* maximal height explored
           FixTomb,       \* F2: ApplyWithoutOverride stores a tombstone for Delete
           FixCache,      \* F3: Pop purges the view cache
           FixEmptyScan,  \* F16: historical scans show keys holding the empty value
+          GhostCache,    \* behaviour generation: Pop leaves a dead marker for every purged cache entry, so that the
+                         \* state graph tells "a view of id was cached before the rollback" from "never requested"
+                         \* (same observable behaviour; histories on which a store that forgets to purge would differ)
           WithHist       \* carry the history variable (behaviour generation)
 
 VARIABLES disk, chain, redo, undo, cache, views, res, hist
@@ -63,8 +66,9 @@ GetView(id) ==
   ELSE IF id = chain THEN [ok |-> TRUE, v |-> [id |-> id, snap |-> disk, raw |-> EmptyLayer, open |-> TRUE], c |-> cache]
   ELSE IF ~Known(id) THEN [ok |-> FALSE, v |-> NoView, c |-> cache]
   ELSE LET hit  == CacheFor(id)
-           ce   == IF hit = {} THEN [id |-> id, to |-> Len(id), raw |-> EmptyLayer]
-                   ELSE CHOOSE c \in hit : TRUE
+           live == {c \in hit : c.to >= 0}
+           ce   == IF live = {} THEN [id |-> id, to |-> Len(id), raw |-> EmptyLayer]
+                   ELSE CHOOSE c \in live : TRUE
            raw  == Fold(ce.raw, ce.to + 1, Len(chain))
        IN [ok |-> TRUE,
            v  |-> [id |-> id, snap |-> disk, raw |-> raw, open |-> TRUE],
@@ -143,7 +147,9 @@ Pop ==
        /\ undo'  = [undo EXCEPT ![h] = EmptyLayer]
        /\ redo'  = [redo EXCEPT ![h] = EmptyLayer]
   /\ chain' = Front(chain)
-  /\ cache' = IF FixCache THEN {} ELSE cache              \* F3
+  /\ cache' = IF ~FixCache THEN cache                      \* F3
+              ELSE IF GhostCache THEN {[id |-> c.id, to |-> 0 - 1, raw |-> EmptyLayer] : c \in cache}
+              ELSE {}
   /\ res' = "ok"
   /\ UNCHANGED views
   /\ Record([a |-> "Pop", r |-> "ok"])
@@ -207,5 +213,12 @@ NoStaleAccept == res # "staleAccepted"
 \* path to the source state, the transition, and the state the specification predicts after it.
 GenView == <<disk, chain, redo, undo, cache, views>>
 EmitEdge == IF WithHist THEN PrintT(<<"B", ToJson([steps |-> hist', obs |-> Obs])>>) ELSE TRUE
+\* with GhostCache: only the transitions that request a view whose cache entry was purged by an earlier rollback
+EmitGhostEdge ==
+  IF ~WithHist THEN TRUE
+  ELSE LET s   == hist'[Len(hist')]
+           rid == IF s.a = "OpenView" THEN s.id ELSE <<"?">>
+       IN IF \E c \in cache : c.to < 0 /\ c.id = rid
+          THEN PrintT(<<"B", ToJson([steps |-> hist', obs |-> Obs])>>) ELSE TRUE
 HBound == Len(hist) <= 40
 =============================================================================
